@@ -350,6 +350,61 @@ def setupBatch (env : Env) (batch : List (Order × List MatchedOrder)) (tx : Bat
     Res (List OpenReq) :=
   resFoldl (fun st (e : Order × List MatchedOrder) => resFoldl (setupMatch env e.1 tx heightHint) st e.2) [] batch
 
+/-! ### lnd's registry of funding shims, re-proposed batches
+
+lnd (`lnwallet.RegisterFundingIntent`) refuses a second shim for a pending channel id it already holds
+(`ErrDuplicatePendingChanID`) and keeps the first one; `ShimCancel` removes it.  `registerFundingShim` returns the
+error of the register call (the acceptor is then *not* notified and `PrepChannelFunding` fails, i.e. the bidder
+rejects the batch); `CancelPendingFundingShims` only logs a failing cancel. -/
+
+abbrev LndShims := List (Bytes × Shim)
+
+def lndLookup (l : LndShims) (pid : Bytes) : Option Shim :=
+  match l with
+  | [] => none
+  | (p, s) :: rest => if p = pid then some s else lndLookup rest pid
+
+def lndRegister (l : LndShims) (pid : Bytes) (s : Shim) : Option LndShims :=
+  match lndLookup l pid with
+  | some _ => none
+  | none => some (l ++ [(pid, s)])
+
+def lndCancel (l : LndShims) (pid : Bytes) : LndShims := l.filter fun e => !(e.1 == pid)
+
+structure PrepSt where
+  out : PrepOut := {}
+  lnd : LndShims := []
+deriving Repr, DecidableEq
+
+/-- loop body of `PrepChannelFunding` against an lnd that already holds `st.lnd` -/
+def prepMatchLnd (env : Env) (nodePubKey : Bytes) (ourOrder : Order) (tx : BatchTx) (heightHint : Nat)
+    (st : PrepSt) (m : MatchedOrder) : Res PrepSt :=
+  (prepRegisters env nodePubKey ourOrder m tx heightHint).bind fun r =>
+    match r with
+    | none => .ok st
+    | some x =>
+      match lndRegister st.lnd x.2.1 x.1 with
+      | none => .err          -- "unable to register funding shim: duplicate pending channel ID"
+      | some l =>
+        let conns := if st.out.conns.contains m.nodeKey then st.out.conns else st.out.conns ++ [m.nodeKey]
+        .ok { out := { conns := conns, regs := st.out.regs ++ [x] }, lnd := l }
+
+def prepBatchLnd (env : Env) (nodePubKey : Bytes) (batch : List (Order × List MatchedOrder)) (tx : BatchTx)
+    (heightHint : Nat) (lnd : LndShims) : Res PrepSt :=
+  resFoldl (fun st (e : Order × List MatchedOrder) =>
+    resFoldl (prepMatchLnd env nodePubKey e.1 tx heightHint) st e.2) { lnd := lnd } batch
+
+/-- `funding.CancelPendingFundingShims`: one `ShimCancel` per match of each of our bids; the cancels of the pending
+ids in `failing` fail (RPC error – logged only). -/
+def cancelPendingFundingShims (H : Bytes → Bytes) (batch : List (Order × List MatchedOrder)) (failing : List Bytes)
+    (lnd : LndShims) : LndShims :=
+  batch.foldl (fun l e =>
+    match e.1 with
+    | .ask _ => l
+    | .bid b => e.2.foldl (fun l m =>
+        let pid := pendingChanKey H m.order.kit.nonce b.kit.nonce
+        if failing.contains pid then l else lndCancel l pid) l) lnd
+
 /-- all (our order, matched order) pairs of a batch -/
 def flatPairs (batch : List (Order × List MatchedOrder)) : List (Order × MatchedOrder) :=
   batch.flatMap fun e => e.2.map fun m => (e.1, m)
